@@ -106,6 +106,7 @@ func genC09(ref core.CaseRef, r *rand.Rand) *c09Case {
 }
 
 func runC09(ctx *core.Ctx) {
+	evCtx = ctx
 	ctx.SetRule("case = (N, 0-3 typed key columns, key domain, row list, feed mode) drawn from PRNG(seed,index); " +
 		"non-trivial = at least 2 deliveries observed and at least 2 distinct keys or a trailing remainder; distinct by (SQL, rows) hash")
 	ctx.Assume("a missing delivery is declared only after the engine stayed quiet for >5 s with empty buffers",
